@@ -334,7 +334,7 @@ def show_model_result(core):
     if parts[0] != "OK": return {"ERR": "Err", "PANIC": "Panic", "NODRAW": "NoDraw"}.get(parts[0], parts[0])
     toks = []
     for t in parts[1:]:
-        if t.startswith("Z"): toks.append("TL[" + ";".join(x if not x.startswith("-") else "(" + x + ")" for x in t.split(",")[1:]) + "]")
+        if t.startswith("Z"): toks.append("TL[" + ";".join(t.split(",")[1:]) + "]")      # Coq prints [1; -2] without parentheses
         elif re.fullmatch(r"-?\d+", t): toks.append("TI" + (t if not t.startswith("-") else "(" + t + ")"))
         else: return None
     return "Ok[" + ";".join(toks) + "]"
